@@ -10,9 +10,13 @@ N == Len(Rec)
 VARIABLES l, phase, bad
 vars == <<l, phase, bad>>
 WResizeL(a, n) == [i \in 1..n |-> a[i]]
-CounterOk(e) == e.ev = "ff"
+\* event "big": one update call of >= 2^32 bytes; no chaining-value hook for Groestl, so the digest is compared with the one of a
+\* chunk-fed instance (out_ref) and the block counter must equal the bytes compressed / block size
+BlockShift(alg) == IF NC(alg) = 8 THEN 6 ELSE 7
+CounterOk(e) == e.ev = "ff" \/ (e.ev = "big" /\ WShl(WResize(e.base, 8), BlockShift(e.alg)) = e.fed)
+RefOk(e) == e.out = e.out_ref /\ e.base = e.base_ref /\ e.pos = e.pos_ref
 Want(e) == GroestlFrom(IV(NC(e.alg), 8 * OutBytes(e.alg)), e.base, e.rest, NC(e.alg), OutBytes(e.alg))
-Check(e) == e.res = "ok" /\ CounterOk(e) /\ e.out = Want(e)
+Check(e) == e.res = "ok" /\ CounterOk(e) /\ (IF e.ev = "big" THEN RefOk(e) ELSE e.out = Want(e))
 Init == l \in 1..N /\ phase = 0 /\ bad = FALSE
 Next == /\ phase = 0 /\ phase' = 1 /\ l' = l
         /\ bad' = IF Check(Rec[l]) THEN FALSE ELSE PrintT(<<"REJECT", l>>)
